@@ -119,7 +119,7 @@ theorem execOp_counts_finAgain (c : Cfg) (w : World) (self wc : Option Id) (k : 
     · exact h.congr rfl rfl rfl rfl rfl rfl rfl
     · split
       · exact h.raise
-      · exact ((hH.upd_same _ _ rfl rfl (fun hx => hx)).ret _).toCounts
+      · exact ((hH.upd_same _ _ rfl rfl).ret _).toCounts
   · exact h.congr rfl rfl rfl rfl rfl rfl rfl
 
 theorem execOp_counts_collect (c : Cfg) (w : World) (self wc : Option Id) (h : Counts w) :
